@@ -308,7 +308,8 @@ func (e *Env) Run(c Case) (map[string]interface{}, error) {
 		return ev, nil
 	}
 	// ---- "out": a read path hands out a model, the caller mutates it
-	needClient := map[string]bool{"get": true, "list": true, "whereList": true, "whereAllList": true, "whereCacheList": true}
+	needClient := map[string]bool{"get": true, "list": true, "listValues": true, "whereList": true, "whereListValues": true,
+		"whereAllList": true, "whereCacheList": true}
 	var got model.Model
 	var reread func() model.Model
 	if needClient[c.Read] {
@@ -342,6 +343,23 @@ func (e *Env) Run(c Case) (map[string]interface{}, error) {
 				return fail("List: %v", err)
 			}
 			got = first(res)
+		case "listValues", "whereListValues":
+			// the result is a slice of struct values, not of pointers
+			res := reflect.New(reflect.SliceOf(f.typ))
+			var err error
+			if c.Read == "listValues" {
+				err = cl.List(ctx, res.Interface())
+			} else {
+				m := reflect.New(f.typ)
+				fieldByTag(m.Elem(), "_uuid").SetString(rowUUID)
+				err = cl.Where(m.Interface()).List(ctx, res.Interface())
+			}
+			if err != nil {
+				return fail("List into values: %v", err)
+			}
+			if res.Elem().Len() > 0 {
+				got = res.Elem().Index(0).Addr().Interface()
+			}
 		case "whereList":
 			m := reflect.New(f.typ)
 			fieldByTag(m.Elem(), "_uuid").SetString(rowUUID)
